@@ -93,7 +93,37 @@ def confirm(name):
     return 0
 
 
+def recheck(names):
+    """re-run the property's quick check against every stored change (fresh scratch worktree per change, removed
+    afterwards); prints one line per change and exits 1 if one is no longer caught"""
+    missed = []
+    for name in names:
+        dst = os.path.join(VERIF, "seeded", name)
+        meta = json.load(open(os.path.join(dst, "meta.json")))
+        wt = f"/tmp/recheck-{os.getpid()}-{name}"
+        run(["git", "-C", "/repo", "worktree", "add", "-q", "--detach", wt, "HEAD"])
+        try:
+            rc, out = run(["git", "-C", wt, "apply", os.path.join(dst, "patch.diff")])
+            if rc:
+                print(name, "PATCH DOES NOT APPLY")
+                missed.append(name)
+                continue
+            rc, viol, keys, out = check(meta["property"], wt)
+            print(name, meta["property"], "rc", rc, (keys[:1] or [""])[0][:160], flush=True)
+            if rc != 1:
+                missed.append(name)
+            meta["last_recheck_rc"] = rc
+            json.dump(meta, open(os.path.join(dst, "meta.json"), "w"), indent=1)
+        finally:
+            run(["git", "-C", "/repo", "worktree", "remove", "--force", wt])
+    print("missed:", missed)
+    return 1 if missed else 0
+
+
 if __name__ == "__main__":
+    if sys.argv[1] == "recheck":
+        names = sys.argv[2:] or sorted(os.listdir(os.path.join(VERIF, "seeded")))
+        sys.exit(recheck(names))
     if sys.argv[1] == "eval":
         evaluate(sys.argv[2], sys.argv[3], sys.argv[4], sys.argv[5], "--all" in sys.argv)
     else:
